@@ -93,7 +93,7 @@ fn main() {
     w.flush().unwrap();
     println!(
         "{}",
-        json!({"hash": GEN_HASH, "cases": st.cases, "events": st.events, "fetch_runs": st.fetch_runs, "setup_runs": st.setup_runs, "exec_runs": st.exec_runs, "fetch_normal": st.fetch_ctx[0], "fetch_dropped_by_unwinding": st.fetch_ctx[1], "fetch_in_drop_while_unwinding": st.fetch_ctx[2], "second_pass": st.second_pass, "twin_blocks": st.twin_blocks,
+        json!({"hash": GEN_HASH, "cases": st.cases, "events": st.events, "fetch_runs": st.fetch_runs, "setup_runs": st.setup_runs, "exec_runs": st.exec_runs, "setup_leaked": st.setup_leaked, "setup_panics": st.setup_panics, "fetch_normal": st.fetch_ctx[0], "fetch_dropped_by_unwinding": st.fetch_ctx[1], "fetch_in_drop_while_unwinding": st.fetch_ctx[2], "second_pass": st.second_pass, "twin_blocks": st.twin_blocks,
                "fetch_ok": st.fetch_ok, "fetch_missing": st.fetch_missing, "fetch_borrow": st.fetch_borrow,
                "fetch_other": st.fetch_other, "with_held": st.with_held, "model_runs": st.model_runs,
                "model_matched": st.model_matched, "model_mismatch": st.model_mismatch,
